@@ -55,3 +55,51 @@ def replay_noformat(p):
     bad = '' if got == want else f'no-format records differ: got {[(o, len(b)) for o, b in got]} want {[(o, len(b)) for o, b in want]}'
     return {'reproduced': bad != '', 'ok': bad == '', 'detail': bad or 'payloads come back exactly, in order',
             'sample': {'name_len': n, 'payload_len': len(want[-1][1]), 'records': len(got)}}
+
+
+def replay_noformat_rename(p):
+    """File written once; the NO-FORMAT object renamed / moved to a second origin / the record re-pointed; written
+    again: every no-format record of the second file refers to an object defined in that file (strict reader) and
+    carries its payload."""
+    sys.stderr = io.StringIO()
+    from dliswriter import DLISFile
+    origin, origin2, n, n2, m, rename, retarget = p['args'][:7]
+    m = min(m, 100000)
+    origin = origin if 0 < origin < 2 ** 30 else 1
+    origin2 = origin2 if 0 < origin2 < 2 ** 30 else 2
+    if origin2 == origin:
+        origin2 = origin + 1
+    rnd = random.Random(16)
+    raw = bytes(rnd.randrange(256) for _ in range(m))
+    df = DLISFile()
+    lf = df.add_logical_file()
+    lf.add_origin('ORIGIN', file_set_number=1, creation_time='2020/01/01 00:00:00', origin_reference=origin)
+    lf.add_origin('ORIGIN2', file_set_number=2, creation_time='2020/01/01 00:00:00', origin_reference=origin2)
+    ch = lf.add_channel('C', data=np.arange(2, dtype=np.float64))
+    lf.add_frame('F', channels=(ch,))
+    nf = lf.add_no_format('A' * n)
+    other = lf.add_no_format('B' * n2, origin_reference=origin2)
+    rec = lf.add_no_format_frame_data(nf, raw)
+    bad = ''
+    try:
+        write_and_read(df)
+        if retarget:
+            rec.no_format_object = other
+            want = (origin2, 0, 'B' * n2)
+        else:
+            if rename:
+                nf.name = 'C' * n2
+            nf.origin_reference = origin2
+            want = (origin2, 0, ('C' * n2) if rename else 'A' * n)
+        data = write_and_read(df)
+        r = strict.parse_file(data)
+        lfv = r['logical_files'][0]
+        errs, _ids = strict.check_logical_file(lfv)
+        if errs:
+            bad = '; '.join(errs[:2])
+        got = [(ob, rec_.body[pos:]) for rec_, ob, pos in lfv.iflrs if rec_.type == 1]
+        if not bad and (len(got) != 1 or tuple(got[0][0]) != want or got[0][1] != raw):
+            bad = f'second file: no-format record under {got[0][0] if got else None}, expected {want}'
+    except strict.StrictError as e:
+        bad = f'strict reader: {e}'
+    return {'reproduced': bad != '', 'ok': bad == '', 'detail': bad or 'second file refers to the current identity'}
